@@ -189,6 +189,20 @@ def run(ctx, B):
                         continue
                     txt = "\n".join(LINES[i] for i in seq)
                     files.append(txt + "\n"); files.append(txt)
+            # every single-byte mutation (insertion / substitution with each byte 0..255 - NUL included - and deletion) of two well-formed files,
+            # one of them with a line longer than the reader's line buffer and without a final newline: "any crystal file content"
+            base_files = ["#S 1 Nm\n#UCELL 5.4 5.4 5.4 90 90 90\n#L AtomicNumber Fraction X Y Z\n14 1.0 0.0 0.5 0.5\n8 0.5 0.25 0.25 0.25\n#EOF\n",
+                          "#S 7 LongLineCrystal\n#UCELL 4.1 4.2 4.3 90 91 92\n#L AtomicNumber Fraction X Y Z\n14 1.0 0.0 0.5 " + " " * 110 + "0.5\n6 1 0 0 0"]
+            for bf in base_files if not quick else base_files[:1] + [base_files[1][:60]]:
+                bb = bf.encode("latin-1")
+                for i in range(len(bb) + 1):
+                    for c in (range(256) if not quick or i % 2 == 0 else (0, 10, 32, 35)):
+                        files.append((bb[:i] + bytes([c]) + bb[i:]).decode("latin-1"))
+                        if i < len(bb):
+                            files.append((bb[:i] + bytes([c]) + bb[i + 1:]).decode("latin-1"))
+                    if i < len(bb):
+                        files.append((bb[:i] + bb[i + 1:]).decode("latin-1"))
+            files += base_files + [b + "\0" for b in base_files] + ["\0", "\0\n#S 1 Nm\n", "#S 1 Nm\n#UCELL 5 5 5 90 90 90\n#L x\n\0\n#EOF\n", "#S 1 Nm\n#UCELL 5 5 5 90 90 90\n#L x\n" + "1" * 98 + "\0 1 0 0 0\n#EOF\n"]
             files = list(dict.fromkeys(files))
             if not quick:
                 raw = open(os.path.join(build.REPO, "data", "Crystals.dat"), "rb").read().decode("latin-1")
